@@ -80,3 +80,78 @@ func VerifForEachStringMkLine(keys []string) []string {
 	forEachStringMkLine(m, func(s string, _ *MkLine) { order = append(order, s) })
 	return order
 }
+
+// ---------- C07, Model/CvsEntries.v: CVS/Entries parsing and isLocallyModified ----------
+
+type VerifCvsEntry struct {
+	Name, Revision, Timestamp, Options, TagDate string
+}
+
+type VerifCvsLoad struct {
+	Entries []VerifCvsEntry // the resulting map, in no particular order
+	Nil     bool            // loadCvsEntries returned a nil map (no CVS/Entries)
+	Invalid int             // number of "Invalid line" errors logged
+	Output  string
+	Panic   string
+}
+
+// verifWriteCvs writes dir/CVS/Entries and dir/CVS/Entries.Log (nil = file absent).
+func verifWriteCvs(dir string, entries, log *string) error {
+	if err := os.MkdirAll(dir+"/CVS", 0o755); err != nil {
+		return err
+	}
+	for _, f := range []struct {
+		name string
+		data *string
+	}{{"Entries", entries}, {"Entries.Log", log}} {
+		p := dir + "/CVS/" + f.name
+		if f.data == nil {
+			if err := os.Remove(p); err != nil && !os.IsNotExist(err) {
+				return err
+			}
+		} else if err := os.WriteFile(p, []byte(*f.data), 0o644); err != nil {
+			return err
+		}
+	}
+	return nil
+}
+
+// VerifLoadCvsEntries runs Pkglint.loadCvsEntries (fresh G) for a file in dir.
+func VerifLoadCvsEntries(dir string, entries, log *string) VerifCvsLoad {
+	var res VerifCvsLoad
+	if err := verifWriteCvs(dir, entries, log); err != nil {
+		res.Panic = "panic:setup: " + err.Error()
+		return res
+	}
+	var out, errOut bytes.Buffer
+	G = NewPkglint(&out, &errOut)
+	res.Panic = VerifPanic(func() {
+		m := G.loadCvsEntries(NewCurrPathString(dir + "/file"))
+		res.Nil = m == nil
+		for k, e := range m {
+			if k != e.Name {
+				res.Panic = "panic:key differs from the entry's name"
+			}
+			res.Entries = append(res.Entries, VerifCvsEntry{e.Name.String(), e.Revision, e.Timestamp, e.Options, e.TagDate})
+		}
+	})
+	res.Output = out.String() + errOut.String()
+	for _, l := range bytes.Split(out.Bytes(), []byte("\n")) {
+		if bytes.Contains(l, []byte(": Invalid line: ")) && bytes.HasPrefix(l, []byte("ERROR: ")) {
+			res.Invalid++
+		}
+	}
+	return res
+}
+
+// VerifIsLocallyModified runs isLocallyModified(dir/name) with a fresh G on the CVS/Entries given.
+// The file dir/name must have been prepared by the caller (or be absent).
+func VerifIsLocallyModified(dir, name string, entries, log *string) (modified bool, panicked string) {
+	if err := verifWriteCvs(dir, entries, log); err != nil {
+		return false, "panic:setup: " + err.Error()
+	}
+	var out, errOut bytes.Buffer
+	G = NewPkglint(&out, &errOut)
+	panicked = VerifPanic(func() { modified = isLocallyModified(NewCurrPathString(dir + "/" + name)) })
+	return
+}
